@@ -175,3 +175,21 @@ package graphsync
 //@   requires channel != nil
 //@   ensures [skip] err == nil && len(result0) == 1 && result0[0].Name == graphsync.ExtensionsDoNotSendFirstBlocks &&
 //@       called(EncodeDoNotSendFirstBlocks, channel.ReceivedCidsTotal()) && result0[0].Data == ret(EncodeDoNotSendFirstBlocks, 0)
+
+// ---------------------------------------------------------------------------------------------
+// outgoing request completion (C01)
+
+//@ func (*graphsync.Transport).consumeResponses {C01}
+//@   opaque -- drains the graphsync response and error channels; the last error is returned (loops over channels: not modelled)
+//@ func (*graphsync.Transport).executeGsRequest {C01,C16}
+//@   requires req != nil && t.events != nil && (*req).onComplete != nil
+//@   ensures [drains-first] first(Transport.consumeResponses, $1 == req)
+//@   ensures [client-cancel] dyntype_is(ret(Transport.consumeResponses, 0), graphsync.RequestClientCancelledErr) ==>
+//@       never(EventsHandler.OnChannelCompleted) && calls(EventsHandler.OnRequestCancelled) == 1 && all(EventsHandler.OnRequestCancelled, $1 == (*req).channelID)
+//@   ensures [responder-cancel] dyntype_is(ret(Transport.consumeResponses, 0), graphsync.RequestCancelledErr) ==>
+//@       never(EventsHandler.OnChannelCompleted) && never(EventsHandler.OnRequestCancelled)
+//@   ensures [completion] !dyntype_is(ret(Transport.consumeResponses, 0), graphsync.RequestClientCancelledErr) &&
+//@       !dyntype_is(ret(Transport.consumeResponses, 0), graphsync.RequestCancelledErr) ==>
+//@       calls(EventsHandler.OnChannelCompleted) == 1 && all(EventsHandler.OnChannelCompleted, $1 == (*req).channelID &&
+//@           (($2 == nil) == (ret(Transport.consumeResponses, 0) == nil)) && ($2 != nil ==> errIs($2, ret(Transport.consumeResponses, 0))))
+//@   ensures [always-signals-completion-hook] last(dyn.func)
